@@ -477,12 +477,14 @@ int libxmp_check_filename_case(const char *dir, const char *name, char *new_name
 static const char *libxmp_get_instrument_path(struct module_data *m)
 {
 	const char *env;
+	/* An empty path means the current directory, for the lookup
+	 * (which lists ".") and for the open alike (not "/name"). */
 	if (m->instrument_path) {
-		return m->instrument_path;
+		return m->instrument_path[0] ? m->instrument_path : ".";
 	}
 	env = getenv("XMP_INSTRUMENT_PATH");
 	if (env) {
-		return env;
+		return env[0] ? env : ".";
 	}
 	return NULL;
 }
